@@ -77,4 +77,7 @@ theorem source_msShutdown : GeneratedSrc.msShutdown = ExpectedSrc.msShutdown := 
 theorem source_msgInitKafkaSender : GeneratedSrc.msgInitKafkaSender = ExpectedSrc.msgInitKafkaSender := by rfl
 theorem source_msgGetSender : GeneratedSrc.msgGetSender = ExpectedSrc.msgGetSender := by rfl
 
+theorem source_kpProduce : GeneratedSrc.kpProduce = ExpectedSrc.kpProduce := by rfl
+theorem source_kpProcess : GeneratedSrc.kpProcess = ExpectedSrc.kpProcess := by rfl
+
 end Firebolt.C12
